@@ -79,6 +79,13 @@ IsConfig(x) ==
             /\ x.vec = "tr" => x.sn = 6
             /\ x.vec = "tr" /\ x.kind = "iacc" => x.st \in 1..3
             /\ x.vec = "tr" /\ x.kind = "irej" => x.st \in 3..5
+            (* with sigma_tr = 0.1 a "100 sigma" outlier is ten times the  *)
+            (* signal itself: the reading no longer resembles the standard *)
+            (* and a least-squares fit may absorb it as a different port   *)
+            (* match (seen once in 1 250 scenarios: chi^2 13 on 10 d.f.).  *)
+            (* The rate clause ("all but rare cases") covers that regime;  *)
+            (* the deterministic rejection scenarios stay below it.        *)
+            /\ x.kind = "irej" => x.st # 1
        ELSE x.vec = "-"
 
 Configs ==
